@@ -42,7 +42,7 @@ C = {
          "np.correlate / einsum summation order and the edge padding are compared on the implementation (1e-11), not proved", T_HAND),
  "C17": ("Cascade and generator model for any carrier (bit-exact at binary64): filter state carried across blocks, any sequence of block requests = one request (samples and state); tied by bit-exact correspondence with alpha/pink/red generators on the recorded white stream.", "7/C17",
          "numpy Generator.normal and scipy lfilter are oracles whose contracts are validated each run", T_HAND),
- "C18": ("Hermitian construction of fftnoise proved as an index map for every length; section DC gain fmax/fmin, Nyquist gain 1, pole inside the unit circle and the closed-form |H|^2 proved; coefficients tied bit-exactly; power-law fit swept analytically.", "7/C18",
+ "C18": ("Hermitian construction of fftnoise proved as an index map for every length; the inverse DFT of the constructed spectrum proved exactly real (so `.real` discards nothing) and the magnitudes proved equal to the prescribed ones for every length; section DC gain fmax/fmin, Nyquist gain 1, pole inside the unit circle and the closed-form |H|^2 proved; coefficients tied bit-exactly; power-law fit swept analytically.", "7/C18",
          "PARTIAL: 'within about 1 dB of f^-alpha' is an approximation statement, swept with a 2 dB allowance on the interior of the band", T_HAND),
  "C19": ("Trapezoid integral additive at grid points, monotone under band nesting, zero for point/empty bands; order-0 detrend orthogonal, idempotent, kills constants; for every order: residual of any normal-equation solution is orthogonal to all polynomials of degree <= p, unchanged by adding such a polynomial, zero on polynomials, idempotent (LeastSquares.v); integral_rms tied bit-exactly at binary64.", "7/C19",
          "detrend theorems for orders >= 1 hold for any solution of the normal equations (np.polyfit's contract, checked numerically each run); PARTIAL: the Parseval link between spectrum and time series is statistical (6% allowance)", T_HAND),
